@@ -213,4 +213,22 @@ theorem world_setRootObj_inv {w : World} (hw : WInv w) (k a : Nat) : (w.setRootO
       · exact winv_graph_grow hw hc (by rw [hk.1]; exact hw.quiet) (fun n h => by rw [hk.2.1]; exact h) (fun e h => by rw [hk.2.2]; exact h)
       · exact winv_graph_grow hw hc (by rw [hk.1]; exact hw.quiet) (fun n h => by rw [hk.2.1]; exact h) (fun e h => by rw [hk.2.2]; exact h)
 
+theorem mem_keys_of_has {β : Type} {k : Nat} {l : List (Nat × β)} (h : AL.has k l = true) : k ∈ AL.keys l := by
+  unfold AL.has at h
+  rcases hf : find k l with _ | v
+  · simp [hf] at h
+  · exact List.mem_map.mpr ⟨(k, v), find_some_mem hf, rfl⟩
+
+theorem world_graphAssign_inv {w : World} (hw : WInv w) {h : G} (hc : Consistent h) : WInv (w.graphAssign h) := by
+  unfold World.graphAssign
+  apply deliver_winv hw
+  · exact ⟨hc.views, hc.node_lt, hc.edge_lt, ⟨hc.sorted.nodes, hc.sorted.edges, hc.sorted.rows⟩⟩
+  · refine ⟨[.edges w.g.allEdges, .nodes w.g.allNodes], rfl, ?_, ?_⟩
+    · intro n hn _
+      simp only [notifiedNodes, List.flatMap_cons, List.flatMap_nil, List.append_nil, List.nil_append]
+      exact mem_keys_of_has hn
+    · intro e he _
+      simp only [notifiedEdges, List.flatMap_cons, List.flatMap_nil, List.append_nil]
+      exact mem_keys_of_has he
+
 end Bpp.Graph
